@@ -17,15 +17,35 @@ func opRoundTrip(w *World, st *Step) execResult {
 	t := w.T(st.Op.H)
 	out := new(tensor.Dense)
 	var encErr, decErr error
+	// the bytes an encoder hands out belong to the caller: encoding ANOTHER tensor before they are decoded must not
+	// change them (an encoder that recycles its buffer would)
+	other := func() {
+		o := tensor.New(tensor.WithShape(2, 3), tensor.Of(w.Cfg.D.T))
+		var buf bytes.Buffer
+		switch f {
+		case "gob":
+			o.GobEncode()
+		case "npy":
+			o.WriteNpy(&buf)
+		case "csv":
+			o.WriteCSV(&buf)
+		case "pb":
+			o.PBEncode()
+		case "fb":
+			o.FBEncode()
+		}
+	}
 	switch f {
 	case "gob":
 		var b []byte
 		if b, encErr = t.GobEncode(); encErr == nil {
+			other()
 			decErr = out.GobDecode(b)
 		}
 	case "npy":
 		var buf bytes.Buffer
 		if encErr = t.WriteNpy(&buf); encErr == nil {
+			other()
 			decErr = out.ReadNpy(&buf)
 		}
 	case "csv":
@@ -36,11 +56,13 @@ func opRoundTrip(w *World, st *Step) execResult {
 	case "pb":
 		var b []byte
 		if b, encErr = t.PBEncode(); encErr == nil {
+			other()
 			decErr = out.PBDecode(b)
 		}
 	case "fb":
 		var b []byte
 		if b, encErr = t.FBEncode(); encErr == nil {
+			other()
 			decErr = out.FBDecode(b)
 		}
 	default:
